@@ -23,8 +23,8 @@ Lemma esp_floor : forall x : Q, enforce_strictly_positive QN x = floor_pos x.
 Proof. intros x. reflexivity. Qed.
 Lemma enn_clip : forall x : Q, enforce_non_negative QN x = clip0 x \/ (x == 0 /\ enforce_non_negative QN x == clip0 x).
 Proof.
-  intros x. unfold enforce_non_negative, clip0, cmp_zero. cbn [CostConsts.ENN_CMP ltb QN].
-  unfold Qltb. change (cost_zero QN) with 0. destruct (Qle_bool 0 x) eqn:E; cbn [negb]; left; reflexivity.
+  intros x. unfold enforce_non_negative, clip0, cmp_bound. cbn [CostConsts.ENN_CMP ltb QN].
+  unfold Qltb. change (of_lit QN CostConsts.ENN_BOUND) with 0. destruct (Qle_bool 0 x) eqn:E; cbn [negb]; left; reflexivity.
 Qed.
 
 Lemma floor_pos_pos : forall x, 0 < floor_pos x.
@@ -62,8 +62,8 @@ Proof.
 Qed.
 Lemma enn_is_clip : forall x : Q, enforce_non_negative QN x = clip0 x.
 Proof.
-  intros x. unfold enforce_non_negative, clip0, cmp_zero. cbn [CostConsts.ENN_CMP ltb QN]. unfold Qltb.
-  change (cost_zero QN) with 0. destruct (Qle_bool 0 x); reflexivity.
+  intros x. unfold enforce_non_negative, clip0, cmp_bound. cbn [CostConsts.ENN_CMP ltb QN]. unfold Qltb.
+  change (of_lit QN CostConsts.ENN_BOUND) with 0. destruct (Qle_bool 0 x); reflexivity.
 Qed.
 
 (* ------------------------------------------------------------------ sums and products *)
@@ -614,3 +614,81 @@ Proof.
   split; [reflexivity|]. split; [vm_compute; reflexivity|]. split; [vm_compute; reflexivity|].
   vm_compute. congruence.
 Qed.
+
+(* ------------------------------------------------------------------ CSV-backed network rates (NetworkCostRateBuilder) *)
+
+Section NbuilderInd.
+  Variable A : Type.
+  Variable P : nbuilder A -> Prop.
+  Hypothesis HT : forall rows, P (BTraversal rows).
+  Hypothesis HA : forall rows, P (BAccess rows).
+  Hypothesis HC : forall l, Forall P l -> P (BCombined l).
+  Fixpoint nbuilder_nested_ind (b : nbuilder A) : P b :=
+    match b with
+    | BTraversal rows => HT rows
+    | BAccess rows => HA rows
+    | BCombined l =>
+        HC l ((fix F (l : list (nbuilder A)) : Forall P l :=
+                 match l with
+                 | [] => Forall_nil P
+                 | b' :: l' => Forall_cons b' (nbuilder_nested_ind b') (F l')
+                 end) l)
+    end.
+End NbuilderInd.
+
+(* a HashMap collected from the rows holds, for a key, the value of the last row with that key *)
+Lemma assoc_rev_last_row : forall {K} (keqb : K -> K -> bool) (rows : list (K * Q)) k,
+  assoc keqb (rev rows) k = last_row keqb rows k.
+Proof.
+  intros K keqb rows k. induction rows as [|x rows IH] using rev_ind; [reflexivity|].
+  rewrite rev_app_distr. cbn [rev app]. unfold last_row. rewrite fold_left_app. cbn [fold_left].
+  unfold assoc in *. cbn [find]. destruct (keqb (fst x) k); [reflexivity|]. exact IH.
+Qed.
+
+(* the rate the builder returns charges, for every edge and every edge pair, the SUM over all configured tables *)
+Lemma nbuild_fee : forall (b : nbuilder Q) r, nbuild b = Ok r ->
+  (forall e, edge_fee r e == builder_edge_fee b e) /\ (forall pe, turn_fee r pe == builder_turn_fee b pe).
+Proof.
+  induction b as [rows | rows | l IH] using nbuilder_nested_ind; intros r H.
+  - destruct rows as [rows|]; cbn [nbuild] in H; [|discriminate]. injection H as <-.
+    split; intros k; cbn [edge_fee turn_fee builder_edge_fee builder_turn_fee]; [|reflexivity].
+    unfold table_value. rewrite assoc_rev_last_row. reflexivity.
+  - destruct rows as [rows|]; cbn [nbuild] in H; [|discriminate]. injection H as <-.
+    split; intros k; cbn [edge_fee turn_fee builder_edge_fee builder_turn_fee]; [reflexivity|].
+    unfold table_value. rewrite assoc_rev_last_row. reflexivity.
+  - cbn [nbuild] in H.
+    set (go := fix go (l : list (nbuilder Q)) : res (list (nrate Q)) :=
+                 match l with
+                 | [] => Ok []
+                 | b' :: l' => do r <- nbuild b'; do rs <- go l'; Ok (r :: rs)
+                 end) in H.
+    destruct (go l) as [rs| | |] eqn:G; cbn [bind] in H; try discriminate. injection H as <-.
+    assert (S : forall rs, go l = Ok rs ->
+              (forall e, Qsum (map (fun r' => edge_fee r' e) rs) == Qsum (map (fun b' => builder_edge_fee b' e) l))
+              /\ (forall pe, Qsum (map (fun r' => turn_fee r' pe) rs) == Qsum (map (fun b' => builder_turn_fee b' pe) l))).
+    { clear G rs. induction IH as [|b' l' Hb' _ IHl]; intros rs G.
+      - cbn in G. injection G as <-. split; intros; reflexivity.
+      - cbn [go] in G. fold go in G. destruct (nbuild b') as [r'| | |] eqn:B; cbn [bind] in G; try discriminate.
+        destruct (go l') as [rs'| | |] eqn:G'; cbn [bind] in G; try discriminate. injection G as <-.
+        destruct (Hb' r' eq_refl) as [He Ht]. destruct (IHl rs' eq_refl) as [Se St].
+        split; intros k; cbn [map]; rewrite !Qsum_cons; [rewrite He, Se | rewrite Ht, St]; reflexivity. }
+    destruct (S rs G) as [Se St]. split; intros k; cbn [edge_fee turn_fee builder_edge_fee builder_turn_fee]; auto.
+Qed.
+
+(* ... and so does the cost model that is given that rate *)
+Lemma nbuild_charged : forall (b : nbuilder Q) r, nbuild b = Ok r ->
+  (forall e, n_traversal QN r e == builder_edge_fee b e) /\ (forall pe, n_access QN r pe == builder_turn_fee b pe).
+Proof.
+  intros b r H. destruct (nbuild_fee b r H) as [He Ht]. split; intros k.
+  - rewrite n_traversal_fee. apply He.
+  - rewrite n_access_fee. apply Ht.
+Qed.
+
+(* two toll tables and a nested congestion table that all list edge 7; two turn tables that both list (3,7) *)
+Definition ex_builder : nbuilder Q :=
+  BCombined [ BTraversal (Some [(3%Z, 3); (7%Z, 4)]);
+              BCombined [ BTraversal (Some [(7%Z, 3 # 2); (9%Z, 8)]); BAccess (Some [((3%Z, 7%Z), 1)]) ];
+              BAccess (Some [((3%Z, 7%Z), 1 # 2); ((7%Z, 9%Z), 2)]) ].
+Lemma ex_builder_sums : exists r, nbuild ex_builder = Ok r
+  /\ n_traversal QN r 7%Z == 11 # 2 /\ n_access QN r (3%Z, 7%Z) == 3 # 2 /\ n_traversal QN r 5%Z == 0.
+Proof. eexists. split; [reflexivity|]. repeat split; vm_compute; reflexivity. Qed.
